@@ -1,6 +1,8 @@
 (* C11 — Circuit transformations have exactly their advertised algebraic effect.
    Only statements + [exact] + Print Assumptions live here.  Models: Model/Transform.v, Model/Simplify.v
-   (flags false = the code as it is, flags true = the repaired code). *)
+   ([*_now] = /repo as it is now, after the repairs db5cda2f (BS.inverse), 47d2b926 (_flatten), 4e70c855
+   (_update_adjacent); [*_old] = the code before them.  Theorems named *_old_code are statements about that
+   HISTORICAL code, kept as regression knowledge: they say why the repairs were needed). *)
 From Coq Require Import Permutation.
 From PV Require Import Model.Transform Model.Simplify Model.TransformX Proofs.CircuitP Proofs.ComponentsP
   Proofs.TransformP Proofs.FlattenP Proofs.BubbleP Proofs.SimplifyP Proofs.PermP Proofs.WitnessP.
@@ -32,53 +34,52 @@ Theorem C11_circuit_inverse_lifts : forall (R : cring) (ii : R) (li : leaf R -> 
 Proof. exact tinv_sound. Qed.
 Print Assumptions C11_circuit_inverse_lifts.
 
-(* FULL STATEMENT (false of the code, see the three _refuted witnesses):
-     forall cv v h c s tl bl tr br, c, s real -> meq 2 (leafm ii (bs_inverse false false false cv v h ...)) (expected v h 2 (bs_mat cv ...)) *)
-Theorem C11_bs_inverse_h_refuted : forall cv,
-  ~ meq 2 (leafm qII (bs_inverse false false false cv false true c35 s45 ph one one one))
+(* HISTORICAL: the full statement was false of BS.inverse before db5cda2f (three witnesses); it now holds: C11_bs_inverse *)
+Theorem C11_bs_inverse_h_refuted_old_code : forall cv,
+  ~ meq 2 (leafm qII (bs_inverse_old cv false true c35 s45 ph one one one))
           (expected false true 2 (bs_mat cv qII c35 s45 ph one one one)).
 Proof. exact bs_inverse_h_refuted. Qed.
-Print Assumptions C11_bs_inverse_h_refuted.
-Theorem C11_bs_inverse_v_refuted : forall cv,
-  ~ meq 2 (leafm qII (bs_inverse false false false cv true false c35 s45 ph one one one))
+Print Assumptions C11_bs_inverse_h_refuted_old_code.
+Theorem C11_bs_inverse_v_refuted_old_code : forall cv,
+  ~ meq 2 (leafm qII (bs_inverse_old cv true false c35 s45 ph one one one))
           (expected true false 2 (bs_mat cv qII c35 s45 ph one one one)).
 Proof. exact bs_inverse_v_refuted. Qed.
-Print Assumptions C11_bs_inverse_v_refuted.
-Theorem C11_bs_inverse_vh_ry_refuted :
-  ~ meq 2 (leafm qII (bs_inverse false false false Ry true true c35 s45 one one one one))
+Print Assumptions C11_bs_inverse_v_refuted_old_code.
+Theorem C11_bs_inverse_vh_ry_refuted_old_code :
+  ~ meq 2 (leafm qII (bs_inverse_old Ry true true c35 s45 one one one one))
           (expected true true 2 (bs_mat Ry qII c35 s45 one one one one)).
 Proof. exact bs_inverse_vh_ry_refuted. Qed.
-Print Assumptions C11_bs_inverse_vh_ry_refuted.
+Print Assumptions C11_bs_inverse_vh_ry_refuted_old_code.
 Theorem C11_witness_is_a_legal_beam_splitter : kmul qII qII = kopp (k1 : QI) /\ kconj qII = kopp qII /\
   kconj c35 = c35 /\ kconj s45 = s45 /\ kmul c35 c35 = ksub k1 (kmul s45 s45) /\
   kmul ph (kconj ph) = k1 /\ kmul one (kconj one) = k1.
 Proof. exact witness_legal. Qed.
 Print Assumptions C11_witness_is_a_legal_beam_splitter.
 
-(* the code's BS.inverse on the complement: phases with tl*br = tr*bl (for h), tl*tr = bl*br and tr*bl = tl*br (for v),
+(* HISTORICAL: the old BS.inverse on the complement: phases with tl*br = tr*bl (for h), tl*tr = bl*br and tr*bl = tl*br (for v),
    and not (Ry with v and h) *)
-Theorem C11_bs_inverse_partial : forall (R : cring) (ii : R), kconj ii = kopp ii ->
+Theorem C11_bs_inverse_old_code_partial : forall (R : cring) (ii : R), kconj ii = kopp ii ->
   forall cv v h c s tl bl tr br, kconj c = c -> kconj s = s -> leaf_sym R v h (LBS cv c s tl bl tr br) ->
-  meq 2 (leafm ii (bs_inverse false false false cv v h c s tl bl tr br)) (expected v h 2 (bs_mat cv ii c s tl bl tr br)).
+  meq 2 (leafm ii (bs_inverse_old cv v h c s tl bl tr br)) (expected v h 2 (bs_mat cv ii c s tl bl tr br)).
 Proof. exact bs_inverse_partial. Qed.
-Print Assumptions C11_bs_inverse_partial.
-(* the repaired BS.inverse: all parameter values, three conventions, all flags *)
-Theorem C11_bs_inverse_repaired : forall (R : cring) (ii : R), kconj ii = kopp ii ->
+Print Assumptions C11_bs_inverse_old_code_partial.
+(* BS.inverse as it is now: right for ALL parameter values, the three conventions, all flags (v, h) *)
+Theorem C11_bs_inverse : forall (R : cring) (ii : R), kconj ii = kopp ii ->
   forall cv v h c s tl bl tr br, kconj c = c -> kconj s = s ->
-  meq 2 (leafm ii (bs_inverse true true true cv v h c s tl bl tr br)) (expected v h 2 (bs_mat cv ii c s tl bl tr br)).
+  meq 2 (leafm ii (bs_inverse_now cv v h c s tl bl tr br)) (expected v h 2 (bs_mat cv ii c s tl bl tr br)).
 Proof. exact bs_inverse_fixed_ok. Qed.
-Print Assumptions C11_bs_inverse_repaired.
+Print Assumptions C11_bs_inverse.
 
-Theorem C11_circuit_inverse_partial : forall (R : cring) (ii : R), kconj ii = kopp ii ->
+Theorem C11_circuit_inverse_old_code_partial : forall (R : cring) (ii : R), kconj ii = kopp ii ->
   forall v h (t : tcomp R), twf R ii t -> (forall l, In l (leaves R t) -> leaf_real R l /\ leaf_sym R v h l) ->
-  meq (tw t) (tmat ii (circuit_inverse false false false v h t)) (expected v h (tw t) (tmat ii t)).
+  meq (tw t) (tmat ii (circuit_inverse_old v h t)) (expected v h (tw t) (tmat ii t)).
 Proof. exact circuit_inverse_partial. Qed.
-Print Assumptions C11_circuit_inverse_partial.
-Theorem C11_circuit_inverse_repaired : forall (R : cring) (ii : R), kconj ii = kopp ii ->
+Print Assumptions C11_circuit_inverse_old_code_partial.
+Theorem C11_circuit_inverse : forall (R : cring) (ii : R), kconj ii = kopp ii ->
   forall v h (t : tcomp R), twf R ii t -> (forall l, In l (leaves R t) -> leaf_real R l) ->
-  meq (tw t) (tmat ii (circuit_inverse true true true v h t)) (expected v h (tw t) (tmat ii t)).
+  meq (tw t) (tmat ii (circuit_inverse_now v h t)) (expected v h (tw t) (tmat ii t)).
 Proof. exact circuit_inverse_fixed. Qed.
-Print Assumptions C11_circuit_inverse_repaired.
+Print Assumptions C11_circuit_inverse.
 
 (* ================= breaking permutations into two-mode swaps ================= *)
 Theorem C11_bubble_is_perm : forall (R : cring) (p : list nat), is_perm p ->
@@ -91,24 +92,24 @@ Proof. exact decompose_perms_preserves. Qed.
 Print Assumptions C11_decompose_perms_preserves.
 
 (* ================= flattening and regrouping ================= *)
-(* FULL STATEMENT (false of the code): forall M d items, fits M items -> meq M (emat (exp_flatten false d items)) (emat items) *)
-Theorem C11_flatten_refuted : fits QI qII 4 nest_items /\
-  ~ meq 4 (emat qII 4 (exp_flatten false None nest_items)) (emat qII 4 nest_items).
+(* HISTORICAL: _flatten before 47d2b926 dropped the enclosing offset; the full statement now holds: C11_flatten_preserves *)
+Theorem C11_flatten_refuted_old_code : fits QI qII 4 nest_items /\
+  ~ meq 4 (emat qII 4 (exp_flatten_old None nest_items)) (emat qII 4 nest_items).
 Proof. exact flatten_refuted. Qed.
-Print Assumptions C11_flatten_refuted.
-Theorem C11_flatten_partial : forall (R : cring) (ii : R) M d (items : list (nat * tcomp R)),
-  fits R ii M items -> okF_top R items -> meq M (emat ii M (exp_flatten false d items)) (emat ii M items).
+Print Assumptions C11_flatten_refuted_old_code.
+Theorem C11_flatten_old_code_partial : forall (R : cring) (ii : R) M d (items : list (nat * tcomp R)),
+  fits R ii M items -> okF_top R items -> meq M (emat ii M (exp_flatten_old d items)) (emat ii M items).
 Proof. exact exp_flatten_code_partial. Qed.
-Print Assumptions C11_flatten_partial.
-Theorem C11_flatten_depth1 : forall (R : cring) (ii : R) M d (items : list (nat * tcomp R)),
+Print Assumptions C11_flatten_old_code_partial.
+Theorem C11_flatten_old_code_depth1 : forall (R : cring) (ii : R) M d (items : list (nat * tcomp R)),
   fits R ii M items -> Forall (fun ot => shallow R (snd ot)) items ->
-  meq M (emat ii M (exp_flatten false d items)) (emat ii M items).
+  meq M (emat ii M (exp_flatten_old d items)) (emat ii M items).
 Proof. exact exp_flatten_code_depth1. Qed.
-Print Assumptions C11_flatten_depth1.
-Theorem C11_flatten_repaired : forall (R : cring) (ii : R) M d (items : list (nat * tcomp R)),
-  fits R ii M items -> meq M (emat ii M (exp_flatten true d items)) (emat ii M items).
+Print Assumptions C11_flatten_old_code_depth1.
+Theorem C11_flatten_preserves : forall (R : cring) (ii : R) M d (items : list (nat * tcomp R)),
+  fits R ii M items -> meq M (emat ii M (exp_flatten_now d items)) (emat ii M items).
 Proof. exact exp_flatten_fixed_ok. Qed.
-Print Assumptions C11_flatten_repaired.
+Print Assumptions C11_flatten_preserves.
 Theorem C11_regroup_preserves : forall (R : cring) (ii : R) M (run : list (nat * tcomp R)), run <> [] ->
   (forall ot, In ot run -> 0 < tw (snd ot) /\ fst ot + tw (snd ot) <= M) ->
   let '(a, w, B) := regroup_run ii M run in a + w <= M /\ meq M (embed a w B) (emat ii M run).
@@ -159,12 +160,21 @@ Theorem C11_perm_trim : forall (R : cring) M a p, is_perm p -> a + length p <= M
 Proof. exact perm_trim. Qed.
 Print Assumptions C11_perm_trim.
 
-(* _update_adjacent as it is loses modes (the heuristic then builds a non-permutation or moves a component wrongly) *)
-Theorem C11_update_adjacent_refuted :
-  let groups := fold_left update_adjacent [[2; 3]; [1; 2]] (map (fun j => [j]) (seq 0 4)) in
+(* _update_adjacent as it is now: no mode is lost, and a component's modes join every group they touch *)
+Theorem C11_update_adjacent_covers : forall m rs adj, covers m adj -> covers m (fold_left update_adjacent rs adj).
+Proof. exact update_adjacent_fold_covers. Qed.
+Print Assumptions C11_update_adjacent_covers.
+Theorem C11_update_adjacent_groups : forall adj r, (exists g, In g adj /\ meets g r = true) ->
+  exists G, In G (update_adjacent adj r) /\ (forall x, In x r -> In x G) /\
+            (forall g x, In g adj -> meets g r = true -> In x g -> In x G).
+Proof. exact update_adjacent_groups. Qed.
+Print Assumptions C11_update_adjacent_groups.
+(* HISTORICAL: before 4e70c855 _update_adjacent lost modes *)
+Theorem C11_update_adjacent_refuted_old_code :
+  let groups := fold_left update_adjacent_old [[2; 3]; [1; 2]] (map (fun j => [j]) (seq 0 4)) in
   ~ (forall k, k < 4 -> exists g, In g groups /\ In k g).
 Proof. exact update_adjacent_refuted. Qed.
-Print Assumptions C11_update_adjacent_refuted.
+Print Assumptions C11_update_adjacent_refuted_old_code.
 
 (* per-instance validation of the heuristic search: the checkers decide matrix equality / closeness *)
 Theorem C11_circ_eq_sound : forall ii m (c1 c2 : fcirc QI), circ_eq ii m c1 c2 = true <-> meq m (fmat ii m c1) (fmat ii m c2).
@@ -184,3 +194,4 @@ Example C11_ex_sym : leaf_sym QI true true (LBS Rx c35 s45 ph ph ph ph) /\ leaf_
 Proof. exact leaf_sym_ex. Qed.
 Example C11_ex_flatten : okF_top QI [(0, TSub 3 [(1, swap2)])] /\ Forall (fun ot => shallow QI (snd ot)) [(1, swap2)].
 Proof. exact flatten_partial_hyp. Qed.
+Example C11_ex_covers : covers 4 (map (fun j => [j]) (seq 0 4)). Proof. exact (covers_init 4). Qed.
